@@ -236,7 +236,11 @@ func (fr *frame) runInstrs(st *PState, b, pred *ssa.BasicBlock, visits map[*ssa.
 		case *ssa.Return:
 			var rs []Val
 			for _, r := range ins.Results {
-				rs = append(rs, fr.val(st, r))
+				v := fr.val(st, r)
+				if p, ok := v.(*PtrVal); ok && p.Kind == PLocal && len(p.Path) == 0 {
+					v = fr.ex.ptrTerm(st, p) // a returned local escapes to the heap
+				}
+				rs = append(rs, v)
 			}
 			fr.ret(st, rs, fr.returnOrdinal(ins))
 			return
@@ -305,7 +309,11 @@ func (fr *frame) resume(st *PState, b *ssa.BasicBlock, from int, visits map[*ssa
 		case *ssa.Return:
 			var rs []Val
 			for _, r := range ins.Results {
-				rs = append(rs, fr.val(st, r))
+				v := fr.val(st, r)
+				if p, ok := v.(*PtrVal); ok && p.Kind == PLocal && len(p.Path) == 0 {
+					v = fr.ex.ptrTerm(st, p) // a returned local escapes to the heap
+				}
+				rs = append(rs, v)
 			}
 			fr.ret(st, rs, fr.returnOrdinal(ins))
 			return
@@ -426,6 +434,9 @@ func (ex *Exec) ifaceTerm(st *PState, v *IfaceVal) T {
 	case T:
 		if p.Sort == SInt {
 			pay = p
+		} else if p.Sort == SBytes {
+			pay = App(SInt, "box_bytes", p)
+			st.Assume(Eq(App(SBytes, "unbox_bytes", pay), p)) // instance of unbox(box(b)) = b
 		} else {
 			pay = st.Fresh("boxed", SInt)
 		}
